@@ -1,1 +1,219 @@
 use super::*;
+use crate::verif_common::*;
+
+// ===========================================================================
+// C14: RFC 6901 pointer layer of the registry
+// ===========================================================================
+const PTR_ALPHABET: [u8; 5] = [b'/', b'~', b'0', b'1', b'a'];
+
+/// Reference validity predicate (8-line byte loop, from RFC 6901 + the statement):
+/// invalid iff non-empty without leading '/', or a '~' not followed by '0'/'1'.
+fn ref_invalid(p: &[u8]) -> bool {
+    if p.is_empty() {
+        return false;
+    }
+    if p[0] != b'/' {
+        return true;
+    }
+    let mut i = 0;
+    while i < p.len() {
+        if p[i] == b'~' && !(i + 1 < p.len() && (p[i + 1] == b'0' || p[i + 1] == b'1')) {
+            return true;
+        }
+        i += 1;
+    }
+    false
+}
+
+/// Reference tokenizer: split on '/', then ~0 -> '~', ~1 -> '/'. Only called on
+/// valid pointers. "/" and "" are the root (no tokens) in the registry dialect.
+struct Toks {
+    count: usize,
+    lens: [usize; 4],
+    bytes: [[u8; 4]; 4],
+}
+fn ref_tokens(p: &[u8]) -> Toks {
+    let mut t = Toks { count: 0, lens: [0; 4], bytes: [[0; 4]; 4] };
+    if p.is_empty() || (p.len() == 1 && p[0] == b'/') {
+        return t;
+    }
+    t.count = 1;
+    let mut i = 1;
+    while i < p.len() {
+        let c = p[i];
+        let k = t.count - 1;
+        if c == b'/' {
+            t.count += 1;
+        } else if c == b'~' {
+            t.bytes[k][t.lens[k]] = if p[i + 1] == b'0' { b'~' } else { b'/' };
+            t.lens[k] += 1;
+            i += 1;
+        } else {
+            t.bytes[k][t.lens[k]] = c;
+            t.lens[k] += 1;
+        }
+        i += 1;
+    }
+    t
+}
+
+//@ name: c14_parse_pointer_rfc6901_2
+//@ prop: C14
+//@ tier: experimental
+//@ timeout: 3000
+//@ clause: malformed pointers are rejected (with the not-found class of error) exactly when RFC 6901 says so; well-formed pointers parse into exactly the unescaped reference tokens
+//@ funcs: registry::parse_pointer; registry::unescape_token; RegistryError::code
+//@ symbolic: pointer of <= 2 bytes over {'/','~','0','1','a'}
+//@ bounds: |pointer| <= 2; unwind 8
+//@ oracle: byte-loop validity predicate and tokenizer written from RFC 6901
+//@ stubs: none
+fn parse_pointer_rfc6901<const N: usize>() {
+    let p = SymStr::<N>::any(&PTR_ALPHABET);
+    let invalid = ref_invalid(p.bytes());
+    match parse_pointer(p.as_str()) {
+        Err(e) => {
+            assert!(invalid, "a well-formed pointer was rejected");
+            assert!(matches!(e, RegistryError::InvalidPointer { .. }));
+            assert!(e.code() == ErrorCode::MethodNotFound, "malformed pointer not in the not-found class");
+            std::mem::forget(e);
+        }
+        Ok(tokens) => {
+            assert!(!invalid, "a malformed pointer was accepted");
+            let want = ref_tokens(p.bytes());
+            assert!(tokens.len() == want.count, "token count differs from RFC 6901");
+            let mut i = 0;
+            while i < want.count {
+                assert!(bytes_eq(tokens[i].as_bytes(), &want.bytes[i][..want.lens[i]]), "token differs from the unescaped RFC 6901 token");
+                i += 1;
+            }
+            kani::cover!(want.count == 1 && want.lens[0] == 1 && p.len == N);
+            kani::cover!(want.count == N);
+            std::mem::forget(tokens);
+        }
+    }
+    kani::cover!(invalid && p.len == N && p.buf[0] == b'/');
+}
+
+#[kani::proof]
+#[kani::unwind(8)]
+fn c14_parse_pointer_rfc6901_2() {
+    parse_pointer_rfc6901::<2>();
+}
+
+//@ prop: C14
+//@ tier: experimental
+//@ clause: as c14_parse_pointer_rfc6901_2 for pointers of up to 3 bytes (all escape shapes that fit: ~0 ~1 ~a ~ /~ a~1 /~0 /~1)
+//@ funcs: registry::parse_pointer; registry::unescape_token; RegistryError::code
+//@ symbolic: pointer of <= 3 bytes over {'/','~','0','1','a'}
+//@ bounds: |pointer| <= 3; unwind 8
+//@ oracle: byte-loop validity predicate and tokenizer written from RFC 6901
+//@ stubs: alloc::fmt::format -> stub (unused)
+//@ timeout: 3000
+#[kani::proof]
+#[kani::unwind(8)]
+fn c14_parse_pointer_rfc6901_3() {
+    parse_pointer_rfc6901::<3>();
+}
+
+//@ name: c14_canonical_key_fast_path_2
+//@ prop: C14
+//@ tier: experimental
+//@ timeout: 3000
+//@ clause: the borrowed fast path for function lookup yields the same escape-normalised key as the re-canonicalising path, and errors exactly on malformed pointers: a callable is addressed only at exactly its escape-normalised pointer
+//@ funcs: registry::canonical_key
+//@ symbolic: pointer of <= 2 bytes over {'/','~','0','1','a'}
+//@ bounds: |pointer| <= 2; unwind 8
+//@ oracle: Err iff RFC-invalid; Ok(k) => k is the pointer itself ("/" for the root forms "" and "/"): a well-formed pointer is its own canonical form
+//@ stubs: none
+fn canonical_key_fast_path<const N: usize>() {
+    let p = SymStr::<N>::any(&PTR_ALPHABET);
+    let invalid = ref_invalid(p.bytes());
+    match canonical_key(p.as_str()) {
+        Err(e) => {
+            assert!(invalid, "a well-formed pointer was rejected");
+            assert!(e.code() == ErrorCode::MethodNotFound);
+            std::mem::forget(e);
+        }
+        Ok(k) => {
+            assert!(!invalid, "a malformed pointer was accepted as a lookup key");
+            if p.len == 0 {
+                assert!(k.as_ref() == "/");
+            } else {
+                assert!(bytes_eq(k.as_bytes(), p.bytes()), "lookup key is not the escape-normalised pointer");
+            }
+            kani::cover!(matches!(k, Cow::Owned(_)) || N < 3);
+            kani::cover!(matches!(k, Cow::Borrowed(_)) && p.len == N);
+            std::mem::forget(k);
+        }
+    }
+}
+
+#[kani::proof]
+#[kani::unwind(8)]
+fn c14_canonical_key_fast_path_2() {
+    canonical_key_fast_path::<2>();
+}
+
+//@ prop: C14
+//@ tier: experimental
+//@ clause: as c14_canonical_key_fast_path_2 for pointers of up to 3 bytes (escaped tokens /~0 /~1 reach the re-canonicalising branch)
+//@ funcs: registry::canonical_key; registry::parse_pointer; registry::canonical_pointer
+//@ symbolic: pointer of <= 3 bytes over {'/','~','0','1','a'}
+//@ bounds: |pointer| <= 3; unwind 8
+//@ oracle: Err iff RFC-invalid; Ok(k) => k is the pointer itself ("/" for the root forms)
+//@ stubs: none
+//@ timeout: 3000
+#[kani::proof]
+#[kani::unwind(8)]
+fn c14_canonical_key_fast_path_3() {
+    canonical_key_fast_path::<3>();
+}
+
+//@ prop: C14
+//@ tier: experimental
+//@ clause: the re-canonicalising path (parse then re-escape) maps every well-formed pointer to itself, so it agrees with the borrowed fast path
+//@ funcs: registry::canonical_pointer; registry::escape_token; registry::parse_pointer
+//@ symbolic: pointer of <= 3 bytes over {'/','~','0','1','a'}
+//@ bounds: |pointer| <= 3; unwind 8
+//@ oracle: canonical_pointer(parse_pointer(p)) == p for well-formed non-root p; "/" for the root forms
+//@ stubs: none
+//@ timeout: 3000
+#[kani::proof]
+#[kani::unwind(8)]
+fn c14_canonical_pointer_slow_path() {
+    let p = SymStr::<3>::any(&PTR_ALPHABET);
+    kani::assume(!ref_invalid(p.bytes()));
+    let toks = parse_pointer(p.as_str()).unwrap();
+    let c = canonical_pointer(&toks);
+    if p.len == 0 || (p.len == 1 && p.buf[0] == b'/') {
+        assert!(c == "/");
+    } else {
+        assert!(bytes_eq(c.as_bytes(), p.bytes()), "re-canonicalised pointer differs from the original");
+    }
+    std::mem::forget(c);
+    std::mem::forget(toks);
+}
+
+//@ prop: C14
+//@ tier: experimental
+//@ clause: pointer tokens round-trip through escaping: unescape(escape(s)) == s for every token
+//@ funcs: registry::escape_token; registry::unescape_token
+//@ symbolic: token of <= 2 bytes over {'/','~','0','1','a'}
+//@ bounds: |token| <= 2 (str::replace is the expensive part); unwind 8
+//@ oracle: identity
+//@ stubs: none
+//@ timeout: 3000
+#[kani::proof]
+#[kani::unwind(8)]
+fn c14_escape_unescape_roundtrip() {
+    let s = SymStr::<2>::any(&PTR_ALPHABET);
+    let e = escape_token(s.as_str());
+    let u = unescape_token(&e);
+    match &u {
+        Ok(back) => assert!(bytes_eq(back.as_bytes(), s.bytes()), "token changed across escape/unescape"),
+        Err(_) => panic!("escaped token does not unescape"),
+    }
+    kani::cover!(s.len == 2 && s.buf[0] == b'~' && s.buf[1] == b'/');
+    std::mem::forget(u);
+    std::mem::forget(e);
+}
